@@ -26,6 +26,7 @@ class Contract(object):
     self.pure_inline = False
     self.verify = True        # False: contract is only assumed at call sites (trusted) — listed in evidence
     self.trusted_reason = None
+    self.ghost_const = set()
     self.ghost_ = {}          # ghost variables: name -> kind
     self.setup_ = []          # python callables (exec, state, env) run after parameter creation
     self.lets_ = []           # (name, expr) evaluated in pre-state, visible to ensures
@@ -34,6 +35,8 @@ class Contract(object):
     self.no_other_exceptions = True
     self.cover_ = []
     self.hooks = {}
+    self.observe_ = []         # (label, pre-state spec expression): evaluated in counter-models for the replayer
+    self.coroutine_ = None     # generator driven by next()/send(): dict(state, send, init, step, inv)
     self.function_of_ = None   # result is a deterministic function of these pre-state expressions
 
   # fluent API used by contract files
@@ -74,8 +77,10 @@ class Contract(object):
     self.lets_.append((name, expr))
     return self
 
-  def ghost(self, name, kind):
-    self.ghost_[name] = 'seq' if kind == 'seq' else parse_kind(kind)
+  def ghost(self, name, kind, const=False):
+    if const:
+      self.ghost_const.add(name)      # specification input that no code under contract changes (e.g. the device script)
+    self.ghost_[name] = kind if kind in ('seq', 'seq[str]', 'seq[int]') else parse_kind(kind)
     return self
 
   def setup(self, fn):
@@ -89,6 +94,23 @@ class Contract(object):
 
   def function_of(self, *exprs):
     self.function_of_ = list(exprs)
+    return self
+
+  def coroutine(self, state, send='val', init=(), step=(), inv=()):
+    """Contract of a generator used as a coroutine (next() once, then send(v) repeatedly).
+    state: {local name: kind} - the generator's locals that survive a suspension (exposed to callers as fields of the
+    generator object); init: clauses at the first suspension; step: clauses relating a resumption (old) to the next
+    suspension, `sent` is the value sent; inv: clauses holding at every suspension.  The body is verified by cutting it
+    at its yield expressions; it must neither finish nor raise unless `raises` says so."""
+    self.coroutine_ = dict(state={k: parse_kind(v) for k, v in state.items()}, send=parse_kind(send), init=list(init),
+                           step=list(step), inv=list(inv))
+    cls = 'gen:' + self.name
+    for k, v in state.items():
+      self.registry.fields[(cls, k)] = parse_kind(v)
+    return self
+
+  def observe(self, label, expr):
+    self.observe_.append((label, expr))
     return self
 
   def cover(self, name, expr):
@@ -183,7 +205,7 @@ class Registry(object):
     return None
 
   PSEUDO = ('regex', 'logger', 'lock', 'rlock', 'event', 'thread', 'object', 'file', 'match', 'condition', 'queue',
-            'transport', 'usb', 'CONF', 'tempfile', 'timeout')
+            'transport', 'usb', 'CONF', 'tempfile', 'timeout', 'stringio')
 
   def class_named(self, name):
     if name in self.PSEUDO:
